@@ -5127,6 +5127,11 @@ class DfaCompileCtx:
             if transition.target in self.dfa.accepting_states:
                 continue
 
+            # An append which runs out of space hands the current character to its handler without consuming it. Moved onto a
+            # transition that consumes, it would hand over a character that has already been matched.
+            if not transition.is_fallthrough and any(isinstance(y, (AppendTo, AppendCharTo)) for x in to_replace.actions for y in x.all_subactions()):
+                continue
+
             if len(to_replace.actions) > 0:
                 max_count = ProgramData.option(ProgramOption.MAX_SHORTCIRCUIT_FALLTHROUGH) - ProgramData.option(ProgramOption.MAX_SHORTCIRCUIT_ACTION_PENALTY)*(len(to_replace.actions)-1)
                 if ignore_map_counter[(frozenset(to_replace.on_values), to_replace.target)] > max_count:
